@@ -1153,3 +1153,29 @@ func isDelegatedErr(t *Term) bool {
 	}
 	return t.Op == "call"
 }
+
+// expandOuter inlines only the outermost call of t (an in-package function
+// with one success result), leaving the arguments as they are.
+func (P *Prog) expandOuter(t *Term) *Term {
+	call, idx := t, 0
+	if t.Op == "res" && len(t.Args) == 1 && t.Args[0].Op == "call" {
+		call = t.Args[0]
+		idx, _ = strconv.Atoi(t.S)
+	}
+	if call.Op != "call" {
+		return t
+	}
+	fn := P.calleeOfTerm(call)
+	if fn == nil {
+		return t
+	}
+	rt := P.terms.successResult(fn, idx)
+	if rt == nil || rt.Op == "alt" {
+		return t
+	}
+	m := map[string]*Term{}
+	for i, a := range call.Args {
+		m[strconv.Itoa(i)] = a
+	}
+	return rt.subst(m)
+}
